@@ -285,8 +285,9 @@ class AppNamespace(object):
             if not row["claimed"]:
                 raise ReclaimedError("you cannot re-claim a nameplate that your side previously released")
             # since that might cause a new mailbox to be allocated
-        db.commit()
 
+        # no commit here: open_mailbox() commits once the mailbox also has
+        # its side row, so a crash cannot leave a side-less mailbox behind
         self.open_mailbox(mailbox_id, side, when) # may raise CrowdedError
         rows = db.execute("SELECT * FROM `nameplate_sides`"
                           " WHERE `nameplates_id`=?", (npid,)).fetchall()
